@@ -775,6 +775,8 @@ def form_cases(draw):
     return {
         "fields": fields, "quote": draw(st.booleans()), "charset": draw(st.sampled_from([None, None, "utf-8", "latin-1", "koi8-r"])),
         "boundary": boundary, "plan": draw(plans()), "force_multipart": draw(st.booleans()),
+        # RFC 7578 4.6: a first form-data field named _charset_ gives the default charset of the text parts after it
+        "charset_field": draw(st.sampled_from([None, None, None, "utf-8", "latin-1", " latin-1 ", "x" * 40])),
     }
 
 
@@ -800,6 +802,9 @@ def check_form(rec: Rec, case: dict) -> None:
                     return
         try:
             fd = FormData(quote_fields=case["quote"], charset=charset, boundary=case["boundary"], default_to_multipart=case["force_multipart"])
+            cf = case.get("charset_field")
+            if cf is not None:
+                fd.add_field("_charset_", cf)
             for f in fields:
                 val = f["text"] if f["kind"] == "str" else (f["content"] if f["kind"] == "bytes" else io.BytesIO(f["content"]))
                 fd.add_field(f["name"], val, content_type=f.get("ctype"), filename=f.get("filename"))
@@ -825,6 +830,17 @@ def check_form(rec: Rec, case: dict) -> None:
         done, res, _ = drive_feed(loop, stream, segments(body, case["plan"]), req.post())
         if not done:
             raise Violation("post-hangs", f"request.post() blocked forever on a complete FormData body, plan {case['plan']}")
+        default_cs = "utf-8"
+        if cf is not None and is_multipart:
+            if len(cf.encode(charset or "utf-8")) > 31:
+                # not a charset name: refused, not guessed at
+                if not isinstance(res, BaseException):
+                    raise Violation("charset-field-not-refused", f"a {len(cf)}-byte _charset_ value was accepted: {res!r}")
+                rec.case(case, True, ["charset-field-too-long"])
+                return
+            default_cs = cf.strip()
+        elif cf is not None:
+            fields = [{"kind": "str", "name": "_charset_", "text": cf}] + fields  # urlencoded: an ordinary field
         if isinstance(res, BaseException):
             raise Violation(hyp.exc_key(res, "post-raised"), f"request.post() on a FormData body raised {type(res).__name__}: {res}; body {_short(body)}")
         items = list(res.items())
@@ -861,10 +877,11 @@ def check_form(rec: Rec, case: dict) -> None:
                             raise Violation("text-field", f"text field {exp!r} came back as {v!r}")
                         if exp is None:
                             try:
-                                if v != data.decode("utf-8"):
-                                    raise Violation("text-field", f"bytes field {_short(data)} declared text came back as {v!r}")
+                                want = data.decode(default_cs)
                             except UnicodeDecodeError:
-                                pass
+                                want = None
+                            if want is not None and v != want:
+                                raise Violation("text-field", f"bytes field {_short(data)} declared text (default charset {default_cs}) came back as {v!r}")
                     else:
                         raise Violation("text-field-kind", f"text field came back as {type(v).__name__}")
                 else:
@@ -877,6 +894,8 @@ def check_form(rec: Rec, case: dict) -> None:
                     else:
                         raise Violation("bytes-field-kind", f"field came back as {type(v).__name__}")
         labels = ["multipart" if is_multipart else "urlencoded", "quote" if case["quote"] else "noquote"]
+        if cf is not None and is_multipart:
+            labels.append("charset-field")
         nt = bool(fields) and any(not f["name"].isascii() or any(c in f["name"] for c in "\"\\%; ") or "filename" in f for f in fields)
         rec.case(case, nt, labels)
     finally:
